@@ -19,7 +19,9 @@ Wrappers ==
           [EW("GDimsStream") EXCEPT !.ds = <<"z">>, !.deny = DenyList], EW("GDimsStream"),
           [EW("GDimsFormat") EXCEPT !.ds = <<"z", "x">>, !.deny = DenyList],
           [EW("EDims") EXCEPT !.ds = <<"p">>], [EW("RootDims") EXCEPT !.ds = <<"q">>],
-          [EW("EFlag") EXCEPT !.f = "A"], [EW("RootFlag") EXCEPT !.f = "B"], [EW("FlagStream") EXCEPT !.f = "A"]}
+          [EW("EFlag") EXCEPT !.f = "A"], [EW("RootFlag") EXCEPT !.f = "B"], [EW("FlagStream") EXCEPT !.f = "A"],
+          \* constructors that contribute no flags: must leave the flags of every value as they are
+          [EW("EFlag") EXCEPT !.f = "0"], [EW("FlagStream") EXCEPT !.f = "0"]}
 
 Init == base \in Bases /\ stack = <<>> /\ ent = BaseEntry(base)
 Wrap(w) == stack' = Append(stack, w) /\ ent' = ApplyE(w, ent) /\ UNCHANGED base
